@@ -107,7 +107,10 @@ pub struct Rt {
     pub tx_log: Ghost<Seq<int>>,
     /// the actor's state root as a CID (used by actors that manage their root themselves: the EVM actor)
     pub state_root: Cid,
+    /// actors created by THIS activation through `create_actor` (init actor only), in order
+    pub created: Ghost<Seq<CreateRec>>,
 }
+pub struct CreateRec { pub code: Cid, pub id: ActorID, pub predictable: Option<Address> }
 
 pub uninterp spec fn rt_state<S>(id: int) -> S;
 /// address resolution is a function of the address within one activation
@@ -306,7 +309,7 @@ impl Rt {
             final(self).msg == old(self).msg, final(self).caller_type == old(self).caller_type,
             final(self).caller_namespace == old(self).caller_namespace, final(self).epoch == old(self).epoch,
             final(self).read_only == old(self).read_only, final(self).validated == old(self).validated,
-            final(self).in_tx == old(self).in_tx, final(self).deleted == old(self).deleted, final(self).tx_log == old(self).tx_log,
+            final(self).in_tx == old(self).in_tx, final(self).deleted == old(self).deleted, final(self).tx_log == old(self).tx_log, final(self).created == old(self).created,
             // value moves iff the callee exited with 0; the callee (or what it calls) may send funds back
             (r.is_ok() && r->Ok_0.exit_code.value == 0) ==> 0 <= value@ <= old(self).balance@
                 && final(self).balance@ >= old(self).balance@ - value@,
@@ -328,7 +331,7 @@ impl Rt {
             final(self).msg == old(self).msg, final(self).caller_type == old(self).caller_type,
             final(self).caller_namespace == old(self).caller_namespace, final(self).epoch == old(self).epoch,
             final(self).read_only == old(self).read_only, final(self).validated == old(self).validated,
-            final(self).in_tx == old(self).in_tx, final(self).deleted == old(self).deleted, final(self).tx_log == old(self).tx_log,
+            final(self).in_tx == old(self).in_tx, final(self).deleted == old(self).deleted, final(self).tx_log == old(self).tx_log, final(self).created == old(self).created,
             (r.is_ok() && r->Ok_0.exit_code.value == 0) ==> 0 <= value@ <= old(self).balance@
                 && final(self).balance@ >= old(self).balance@ - value@,
             (r.is_ok() && r->Ok_0.exit_code.value == 0 && (method == METHOD_SEND || rt_no_reentry(*to, method))) ==>
